@@ -58,6 +58,7 @@ def run(res, programs, tier):
     for P in programs:
         if "dashu_ratio" in P.units and "dashu_float" in P.units and P.role == "main":
             halftest.rule(res, P, P.name, "R06.5")
+            _r06_6(res, P, P.name)
     res.rule("R06.1", "infallible From<A> for B between number types only along value-set inclusions (impl table)")
     res.rule("R06.2", "a right shift of the converted value inside a TryFrom body is dominated by a test of the shifted-out bits with an Err edge")
     res.rule("R06.4", "sibling agreement: f32/f64 FloatEncoding::{encode,decode} have the same structure; to_f32/to_f64 of large integers split at one position (kept bits, sticky range, exponent)")
@@ -233,3 +234,34 @@ def _r06_3(res, P, cfgname):
                 else:
                     res.fail("R06.3", cfgname, key, "%s no longer narrows through a checked conversion (calls %s)" % (f["p"], cal[:4]), span_loc(f["sp"]))
     res.floor("R06.3", cfgname, n, 24, "TryFrom<big> for primitive integer impls")
+
+
+# ---------------------------------------------------------------------------------------------
+# R06.6  `>>` on an IBig is an arithmetic shift: it floors (-9 >> 1 == -5) whereas the float / rational
+# code means "drop low digits of the magnitude" (truncate toward zero) and therefore shifts magnitudes
+# (shr_digits, split_digits, UBig).  Every IBig right shift in dashu_float / dashu_ratio is reviewed.
+IBIG_SHR_REVIEWED = {
+    "dashu_float::repr::Repr::<B>::normalize": "exact: shifts out exactly the trailing zero bits / digits just counted",
+    "dashu_ratio::repr::Repr::reduce2": "exact: shifts out the common trailing zeros of numerator and denominator",
+    "dashu_ratio::convert::<impl dashu_ratio::repr::Repr>::to_f32_fast": "documented as fast and not correctly rounded; 106/53-bit estimate",
+    "dashu_ratio::convert::<impl dashu_ratio::repr::Repr>::to_f64_fast": "documented as fast and not correctly rounded",
+}
+
+
+def _r06_6(res, P, cfgname):
+    res.rule("R06.6", "IBig `>>` (floors on negatives) appears in the float / rational crates only at reviewed exact or documented-approximate sites; truncating conversions shift magnitudes")
+    n = 0
+    for f in P.fns():
+        if f["crate"] not in ("dashu_float", "dashu_ratio") or not f.get("mir"):
+            continue
+        for bb, t, fr in mir.iter_calls(f["mir"]):
+            cp = fr and (fr.get("rp") or fr["p"])
+            if not cp or not ("bit::Shr" in cp) or "ibig::IBig" not in cp.split(" for ")[-1]:
+                continue
+            n += 1
+            key = "IBig >> in " + f["p"]
+            if f["p"] in IBIG_SHR_REVIEWED:
+                res.ok("R06.6", cfgname, key, sample=dict(function=f["p"], reviewed=IBIG_SHR_REVIEWED[f["p"]]))
+            else:
+                res.fail("R06.6", cfgname, key, "%s shifts an IBig right with `>>`: on a negative value this floors (−4.5 → −5) instead of truncating toward zero like the digit-shift helpers (shr_digits / split_digits) do" % f["p"], span_loc(t["sp"]))
+    res.floor("R06.6", cfgname, n, 3, "IBig right-shift sites in dashu_float / dashu_ratio")
